@@ -126,4 +126,16 @@ CLAIMED["C04"] = dict(
          "are covered by correspondence + end-to-end only; tree equality also needs blank-insensitive statement "
          "matchers (three recorded exceptions).",
     technique="Rocq proof (continuation-join theorem by induction over pieces) + character-level model/reader correspondence + exhaustive small-statement layout enumeration + program-level layout search")
+CLAIMED["C05"] = dict(
+    design_ref="DESIGN.md 4 (C05), 3.2",
+    text="Theorems: exact characterisation of the fixed/free detector (model of get_source_info_str) by line shape: "
+         "every line looks fixed and none ends in '&' => fixed; some line starts in columns 1-5 with an admissible "
+         "character => free; and these are the only reasons for free. The unconditional wording is refuted by a "
+         "computed witness (F11), as is 'literals keep every character' (F10). Computed instances of the reader "
+         "model show fixed and free renderings of a statement giving the same item. Tie: detector model vs "
+         "get_source_info_str on generated and random sources; reader model vs real reader on fixed-form layouts. "
+         "Search: generated programs in fixed-form renderings: detected fixed, reader stays in fix mode, same tree.",
+    note=READER_NOTE + " Partial: equivalence of fixed-form and free-form reading for every statement is not a theorem "
+         "(correspondence + end-to-end). Three recorded findings (F10, F11, indented '!' comment).",
+    technique="Rocq proof (detector characterisation, both directions) + detector/reader model correspondence + fixed-form rendering search")
 NOT_CLAIMED = {}
